@@ -534,10 +534,10 @@ def compare(case, kind, got_rows, exp, form, acc, ps):
         if pair:
             e, diff = pair
             extra.remove(e)
-            name = "+".join(FIELD_NAMES[i] for i in diff)
+            mech = "+".join(FIELD_NAMES[i] for i in diff) + "_wrong:" + proto_of(m)
             if set(diff) <= {0, 6} and len(socks[owner[m]]["holders"]) > 1:
-                name += ":shared_socket"
-            viols.append((f"{name}_wrong:{proto_of(m)}", f"{form} kind={kind}: got {e!r} want {m!r}"))
+                mech += ":shared_socket"
+            viols.append((mech, f"{form} kind={kind}: got {e!r} want {m!r}"))
         else:
             viols.append((f"row_missing:{proto_of(m)}", f"{form} kind={kind}: want {m!r}; got {sorted(gotset, key=repr)[:8]!r}"))
     for e in extra:
